@@ -94,5 +94,41 @@ PROPS["C11"] = {
     ],
 }
 
+PROPS["C18"] = {
+    "quick_secs": 10,
+    "thorough_secs": 120,
+    "min_evaluations": 100000,
+    "technique": "differential monitor: RefProgramLocation forward/backward/enumeration/round-trips vs an independently built location graph",
+    "rule": "random programs of 1-3 functions (<=8 blocks; empty blocks, self-loops, multi-in/multi-out blocks, unreachable blocks, duplicate and "
+            "missing instruction addresses); for every location of every function forward() and backward() are compared with the independent "
+            "location graph, the converse relation is checked pairwise, the forward closure from the entry is compared with graph reachability, "
+            "each location is round-tripped through ProgramLocation/FunctionLocation on the program and on a clone (apply, migrate), and "
+            "from_address is queried for every address in the range used. Distinct = (block count, edge count, has empty block, has self-loop).",
+    "level_text": "All locations and all addresses of each generated program are enumerated completely; programs themselves are sampled.",
+    "level_note": "trusts harness/src/locgraph.rs (built from blocks(), instructions(), edges() only)",
+    "assumptions": ["programs come from the harness IL generator (harness/src/ilgen.rs)"],
+}
+
+PROPS["C07"] = {
+    "quick_secs": 12,
+    "thorough_secs": 180,
+    "min_evaluations": 100000,
+    "technique": "lock-step differential monitor: executor::Driver vs independent reference IL interpreter, comparing location, all scalars and memory after every step, or the error kind",
+    "rule": "random IL programs of 1-3 functions (<=6 blocks each; assignments, loads, stores, indirect branches within and across functions, "
+            "to on-demand-liftable x86 code and to nowhere, intrinsics, divisions; widths 1..128; 2- and 3-way guard partitions, empty blocks, "
+            "self-loops) from corner-biased initial states with occasionally undefined scalars and an unmapped byte, both endiannesses, memory "
+            "with and without backing; one in ten programs has guards that are deliberately not exhaustive. Lock-step for <=200 steps. "
+            "Distinct = (how the run ended: terminal/undefined scalar/unmapped/div by zero/intrinsic/no guard/branch nowhere/lifted/step cap, "
+            "endianness, backing, cross-function branch).",
+    "level_text": "Lock-step comparison with a reference interpreter transcribed from the statement, on sampled programs and states; every step "
+                  "of every run is an oracle comparison of the complete observable state.",
+    "level_note": "trusts harness/src/refinterp.rs and refeval.rs; programs whose guards are not mutually exclusive are not judged once two guards hold at the same time",
+    "assumptions": [
+        "reference interpreter harness/src/refinterp.rs",
+        "a block without outgoing edges ends the function: falcon reports ExecutorNoValidLocation there, which is accepted",
+        "when two guards of a block hold simultaneously (ill-formed program) the run is not judged further",
+    ],
+}
+
 # properties not claimed, with the reason (everything else not in PROPS is 'not built yet')
 NOT_CLAIMED = {}
